@@ -7,7 +7,7 @@
 import BtcVerif.Spec.Merkle
 import BtcVerif.Spec.Chain
 import BtcVerif.Spec.Limits
-import BtcVerif.Model.Compact
+import BtcVerif.Spec.Compact
 
 namespace BtcVerif.Spec.BlockCheck
 open BtcVerif BtcVerif.Crypto BtcVerif.Spec
